@@ -45,7 +45,8 @@ fn set_merge_contract<Other: IntoIterator<Item = u8> + Clone>(other: Other) {
     // C04: exactly set union
     let mut e: u8 = kani::any();
     let _ = &mut e;
-    kani::assert(after.has(e) == (before.has(e) || o.has(e)), "C04:set_union_merge_is_set_union");
+    // C01 rides on the same fact: set union is associative, commutative and idempotent, so a merge that IS set union is ACI
+    kani::assert(after.has(e) == (before.has(e) || o.has(e)), "C01+C04:set_union_merge_is_set_union");
     kani::assert(after.n <= before.n + o.n, "C04:set_union_merge_adds_no_duplicates");
     // C02
     kani::assert(changed == !subset(&o, &before), "C02:set_union_changed_iff_other_not_subset");
@@ -160,7 +161,8 @@ fn map_merge_contract<Other: IntoIterator<Item = (u8, V)> + Clone>(other: Other)
     let after = x.into_reveal();
     let k: u8 = kani::any();
     // C04: key-wise max with bottom (0) entries invisible
-    kani::assert(at(&after, k) == at(&before, k).max(at(&o, k)), "C04:map_union_merge_is_keywise_merge");
+    // C01 rides on the same fact: key-wise max is associative, commutative and idempotent
+    kani::assert(at(&after, k) == at(&before, k).max(at(&o, k)), "C01+C04:map_union_merge_is_keywise_merge");
     // C02: changed iff some key's value grew (in the model)
     let grew = |kk: u8| at(&o, kk) > at(&before, kk);
     let mut any_grew = false;
@@ -224,6 +226,10 @@ where
     kani::assert(ma.partial_cmp(&mb) == want, "C03:map_union_partial_cmp_is_keywise_order_bottoms_invisible");
     kani::assert((ma == mb) == (le && ge), "C03:map_union_eq_is_keywise_equality_bottoms_invisible");
 }
+// cheap cross-representation instances for the quick tier (one entry per side)
+#[kani::proof] #[kani::unwind(8)] pub(crate) fn map_cmp_small_option_singleton() { map_cmp_contract(OptionMap::<u8, V>(if kani::any() { Some((kani::any(), val())) } else { None }), SingletonMap::<u8, V>(kani::any(), val())) }
+#[kani::proof] #[kani::unwind(8)] pub(crate) fn map_cmp_small_singleton_option() { map_cmp_contract(SingletonMap::<u8, V>(kani::any(), val()), OptionMap::<u8, V>(if kani::any() { Some((kani::any(), val())) } else { None })) }
+#[kani::proof] #[kani::unwind(8)] pub(crate) fn map_cmp_small_option_option() { map_cmp_contract(OptionMap::<u8, V>(if kani::any() { Some((kani::any(), val())) } else { None }), OptionMap::<u8, V>(if kani::any() { Some((kani::any(), val())) } else { None })) }
 #[kani::proof] #[kani::unwind(8)] pub(crate) fn map_cmp_tiny_tiny() { map_cmp_contract(sym_tmap(), sym_tmap()) }
 #[kani::proof] #[kani::unwind(8)] pub(crate) fn map_cmp_array_option() { map_cmp_contract(sym_amap2(), OptionMap::<u8, V>(if kani::any() { Some((kani::any(), val())) } else { None })) }
 #[kani::proof] #[kani::unwind(8)] pub(crate) fn map_cmp_option_array() { map_cmp_contract(OptionMap::<u8, V>(if kani::any() { Some((kani::any(), val())) } else { None }), sym_amap2()) }
